@@ -375,6 +375,9 @@ func (e *Env) RIndex() {
 					if sortCallbackIndex(info, fd, x) || lenGuardedSearchIndex(info, fd, x) {
 						return true // valid by the contract of package sort / guarded by i < len(S)
 					}
+					if descBounded(info, fd, x) {
+						return true // a parameter that every caller sets to a range key of S, or a loop counting down from it to 0
+					}
 					add("var", x.Pos(), x)
 				}
 			case *ast.SliceExpr:
@@ -1088,4 +1091,180 @@ func (e *Env) lenGuarded(fd *ast.FuncDecl, at ast.Node, base ast.Expr, k string)
 		return false
 	}
 	return conj(cond)
+}
+
+// inRangeParam: p is a parameter of fd that is never assigned in fd, and at every call site of fd
+// (in the package) the argument is the key variable of an enclosing `for k := range S'` where S'
+// names the same field as base (so 0 <= p < len(S) as long as S is not shortened in between, which
+// the decorator never does: fragments are only appended before link() runs).
+func inRangeParam(info *types.Info, fd *ast.FuncDecl, p types.Object, base ast.Expr) bool {
+	fieldOf := func(x ast.Expr) types.Object {
+		if se, ok := ast.Unparen(x).(*ast.SelectorExpr); ok {
+			return info.Uses[se.Sel]
+		}
+		return nil
+	}
+	bf := fieldOf(base)
+	if bf == nil || p == nil {
+		return false
+	}
+	idx, k := -1, 0
+	if fd.Type.Params == nil {
+		return false
+	}
+	for _, f := range fd.Type.Params.List {
+		for _, nm := range f.Names {
+			if info.Defs[nm] == p {
+				idx = k
+			}
+			k++
+		}
+	}
+	if idx < 0 {
+		return false
+	}
+	assigned := false
+	ast.Inspect(fd.Body, func(n ast.Node) bool {
+		switch st := n.(type) {
+		case *ast.AssignStmt:
+			for _, l := range st.Lhs {
+				if id, ok := l.(*ast.Ident); ok && info.Uses[id] == p {
+					assigned = true
+				}
+			}
+		case *ast.IncDecStmt:
+			if id, ok := st.X.(*ast.Ident); ok && info.Uses[id] == p {
+				assigned = true
+			}
+		}
+		return true
+	})
+	if assigned {
+		return false
+	}
+	target := info.Defs[fd.Name]
+	calls, good := 0, true
+	for _, file := range nonNegParamFiles {
+		var ranges []*ast.RangeStmt
+		ast.Inspect(file, func(n ast.Node) bool {
+			if rs, ok := n.(*ast.RangeStmt); ok {
+				ranges = append(ranges, rs)
+			}
+			call, ok := n.(*ast.CallExpr)
+			if !ok || idx >= len(call.Args) {
+				return true
+			}
+			if fn := calleeFunc(info, call); fn == nil || types.Object(fn) != target {
+				return true
+			}
+			calls++
+			id, ok := ast.Unparen(call.Args[idx]).(*ast.Ident)
+			okArg := false
+			if ok {
+				for _, rs := range ranges {
+					if kid, isID := rs.Key.(*ast.Ident); isID && info.Defs[kid] == info.Uses[id] && rs.Body.Pos() <= call.Pos() && call.End() <= rs.Body.End() && fieldOf(rs.X) == bf {
+						okArg = true
+					}
+				}
+			}
+			if !okArg {
+				good = false
+			}
+			return true
+		})
+	}
+	return calls > 0 && good
+}
+
+// descBounded: S[p] with p an in-range parameter (inRangeParam), or S[i] in (the body or, after the
+// test i >= 0, the condition of) a loop `for i := p - K; i >= 0 && …; i--` that counts down from
+// such a parameter (K a non-negative constant) and writes neither i nor S.
+func descBounded(info *types.Info, fd *ast.FuncDecl, x *ast.IndexExpr) bool {
+	idx, ok := ast.Unparen(x.Index).(*ast.Ident)
+	if !ok {
+		return false
+	}
+	iObj := info.Uses[idx]
+	if inRangeParam(info, fd, iObj, x.X) {
+		return true
+	}
+	var loop *ast.ForStmt
+	ast.Inspect(fd.Body, func(n ast.Node) bool {
+		if fs, ok := n.(*ast.ForStmt); ok && fs.Pos() <= x.Pos() && x.End() <= fs.End() {
+			loop = fs
+		}
+		return true
+	})
+	if loop == nil || loop.Init == nil || loop.Cond == nil || loop.Post == nil {
+		return false
+	}
+	init, ok := loop.Init.(*ast.AssignStmt)
+	if !ok || init.Tok != token.DEFINE || len(init.Lhs) != 1 || len(init.Rhs) != 1 {
+		return false
+	}
+	if iv, ok := init.Lhs[0].(*ast.Ident); !ok || info.Defs[iv] != iObj {
+		return false
+	}
+	start := ast.Unparen(init.Rhs[0])
+	if be, ok := start.(*ast.BinaryExpr); ok && be.Op == token.SUB {
+		if tv, ok := info.Types[be.Y]; !ok || tv.Value == nil || strings.HasPrefix(tv.Value.String(), "-") {
+			return false
+		}
+		start = ast.Unparen(be.X)
+	}
+	pid, ok := start.(*ast.Ident)
+	if !ok || !inRangeParam(info, fd, info.Uses[pid], x.X) {
+		return false
+	}
+	if post, ok := loop.Post.(*ast.IncDecStmt); !ok || post.Tok != token.DEC {
+		return false
+	} else if id, ok := post.X.(*ast.Ident); !ok || info.Uses[id] != iObj {
+		return false
+	}
+	// the lower bound test, and where it ends (uses in the condition must come after it)
+	var lowerEnd token.Pos
+	var conj func(e ast.Expr)
+	conj = func(e ast.Expr) {
+		e = ast.Unparen(e)
+		if be, ok := e.(*ast.BinaryExpr); ok {
+			if be.Op == token.LAND {
+				conj(be.X)
+				conj(be.Y)
+				return
+			}
+			if id, ok := be.X.(*ast.Ident); ok && info.Uses[id] == iObj && be.Op == token.GEQ && types.ExprString(be.Y) == "0" && lowerEnd == token.NoPos {
+				lowerEnd = be.End()
+			}
+		}
+	}
+	conj(loop.Cond)
+	if lowerEnd == token.NoPos {
+		return false
+	}
+	inBody := loop.Body.Pos() <= x.Pos() && x.End() <= loop.Body.End()
+	inCond := loop.Cond.Pos() <= x.Pos() && x.End() <= loop.Cond.End() && x.Pos() > lowerEnd
+	if !inBody && !inCond {
+		return false
+	}
+	base := types.ExprString(x.X)
+	clean := true
+	ast.Inspect(loop.Body, func(n ast.Node) bool {
+		switch st := n.(type) {
+		case *ast.AssignStmt:
+			for _, l := range st.Lhs {
+				if id, ok := l.(*ast.Ident); ok && info.Uses[id] == iObj {
+					clean = false
+				}
+				if types.ExprString(l) == base {
+					clean = false
+				}
+			}
+		case *ast.IncDecStmt:
+			if id, ok := st.X.(*ast.Ident); ok && info.Uses[id] == iObj {
+				clean = false
+			}
+		}
+		return true
+	})
+	return clean
 }
